@@ -40,7 +40,8 @@ def check(run):
                 "DF0/DF4/DF20 frames, all 2^13 squawks through DF5, all 2^12 ME altitude codes "
                 "through DF17 TC11 and TC20; every call is made twice (ascending with an unrelated call "
                 "before every 7th call and a truncated frame before every 3rd frame decode, then "
-                "descending) and the two results of the code must be equal",
+                "descending under a tracing subscriber that enables every log call site) and the two results of "
+                "the code must be equal",
     })
     run.assumptions += [
         "M = 1 (metric) altitude codes are checked for totality only (outside the property)",
